@@ -12,6 +12,7 @@ fn main() {
         "w_reg" => vh::w_reg::main(rest),
         "w_channel" => vh::w_channel::main(rest),
         "w_iter" => vh::w_iter::main(rest),
+        "w_close" => vh::w_close::main(rest),
         "w_halflock" => vh::w_halflock::main(rest),
         _ => {
             eprintln!("unknown workload {:?}", w);
